@@ -13,6 +13,8 @@
 (* and set_options / with-options blocks are single steps.  Steps of          *)
 (* different threads interleave arbitrarily.                                   *)
 (*                                                                            *)
+(* Option values are cells of Options.tla's heap; here every cell is          *)
+(* immutable and named after its content (Heap0 = identity).                  *)
 (* A tree is abstracted to the sequence of <<node, option value seen>> edits  *)
 (* applied to it, a result to <<outcome, value observed>>.                    *)
 (*                                                                            *)
@@ -26,15 +28,15 @@
 EXTENDS Integers, Sequences, FiniteSets, TLC
 
 CONSTANTS Threads, Main, Roots, Nodes, Owner, MaxDepth,
-          Opts, Vals, Default, Bad, Unknown, MaxNest,
+          Opts, Vals, Cells, Mutable, Heap0, Default, Bad, Unknown, MaxNest,
           ScriptPool,      \* Threads -> set of scripts the thread may run
           SharedStore
 
 VARIABLES reg, stack, mode, touched,      \* Registry
-          alive, store, blocks, last,     \* Options
+          alive, store, blocks, heap, last,   \* Options
           script, pc, phase, val, tree, res
 rvars == <<reg, stack, mode, touched>>
-ovars == <<alive, store, blocks, last>>
+ovars == <<alive, store, blocks, heap, last>>
 tvars == <<script, pc, phase, val, tree, res>>
 vars  == <<rvars, ovars, tvars>>
 
